@@ -135,6 +135,36 @@ def enuc_pairs(method, Z, X):
     return E
 
 
+_GRIMME = {}
+
+
+def edisp_am1_fs1(Z, X):
+    """AM1-FS1 pair dispersion energy (Foster & Sohlberg, JCTC 6, 2153 (2010); Grimme 2006 C6 / R0 from the shipped
+    CSV, own reader): E = - sum_{i<j} sqrt(C6_i C6_j) R^-6 f(R), f = 1/(1+exp(-1000 (R/(1.1058892 (R0_i+R0_j)) - 1))),
+    C6 in J nm^6/mol -> eV with 1.036426966e-5 * 1e6."""
+    if not _GRIMME:
+        fn = os.path.join(env.REPO, "seqm", "params", "grimme_2006_b97-d.csv")
+        with open(fn, encoding="utf-8-sig") as f:
+            f.readline()
+            for line in f:
+                c = line.strip().replace(" ", "").split(",")
+                try:
+                    _GRIMME[int(c[0])] = (float(c[2]), float(c[3]))
+                except (ValueError, IndexError):
+                    continue
+    E = 0.0
+    n = len(Z)
+    for i in range(n):
+        for j in range(i + 1, n):
+            c6 = math.sqrt(_GRIMME[Z[i]][0] * _GRIMME[Z[j]][0])
+            rv = _GRIMME[Z[i]][1] + _GRIMME[Z[j]][1]
+            R = float(np.linalg.norm(np.asarray(X[i]) - np.asarray(X[j])))
+            a = 1000.0 * (R / (1.1058892 * rv) - 1.0)
+            f = 1.0 if a > 700 else (0.0 if a < -700 else 1.0 / (1.0 + math.exp(-a)))
+            E -= c6 * R ** -6 * f
+    return E * 1.036426966e-5 * 1e6
+
+
 def occupations(Z, charge, mult, uhf):
     nel = sum(VALENCE[z] for z in Z) - int(round(charge))
     if not uhf:
@@ -242,6 +272,13 @@ def bundle(mol, es, sett, charges, mults, sp2_tol=None, do_fock=True):
             mon["rows_excited"] += 1
         cis_tol = (sett.get("excited_states") or {}).get("tolerance", 0.0) if active[b] > 0 else 0.0
         mon["etot_compared"] += 1
+        edisp = 0.0
+        if sett.get("dispersion", False) and method == "AM1":
+            edisp = edisp_am1_fs1(real, X[:n])
+            mon["rows_dispersion"] = mon.get("rows_dispersion", 0) + 1
+            if abs(edisp) > 1e-6:
+                mon["rows_dispersion_nonzero"] = mon.get("rows_dispersion_nonzero", 0) + 1
+            exc += edisp
         # the excitation energy enters Etot either as the Davidson Ritz value or as the Rayleigh quotient of the returned
         # amplitude; each lies within the residual tolerance of the eigenvalue, so the two may differ by 2 * tolerance
         # ... and the Rayleigh-quotient route (calc_cis_energy, used when the force comes from reverse-mode
@@ -255,7 +292,8 @@ def bundle(mol, es, sett, charges, mults, sp2_tol=None, do_fock=True):
             scf_allow = 300.0 * float(sett.get("scf_eps", 0.0)) * amp_e
         if upd("etot_assembly", abs(Etot[b] - (Eelec[b] + Enuc[b] + exc)), TOL_ETOT + 2.0 * cis_tol + scf_allow):
             viol.append({"clause": "etot-assembly", "mech": None,
-                         "detail": dict(wit, Etot=float(Etot[b]), Eelec=float(Eelec[b]), Enuc=float(Enuc[b]), excitation=exc)})
+                         "detail": dict(wit, Etot=float(Etot[b]), Eelec=float(Eelec[b]), Enuc=float(Enuc[b]),
+                                        excitation_plus_dispersion=exc, dispersion=edisp)})
         en = enuc_pairs(method, real, X[:n])
         if en is not None:
             mon["enuc_rows"] += 1
